@@ -51,8 +51,8 @@ class SeqCheck:
     def suites(self, ctx):
         s = ctx.seed
         if ctx.tier == 'quick':
-            return [('rand', ['rand', s, 1500, 20, 120]), ('exh', ['bfs', 2, 100000000]), ('exh3', ['bfs', 3, 1500])]
-        return [('rand', ['rand', s, 25000, 20, 200]), ('exh', ['bfs', 3, 100000000]), ('exh4', ['bfs', 4, 60000])]
+            return [('rand', ['rand', s, 1500, 20, 120]), ('life', ['life', s, 1500]), ('exh', ['bfs', 2, 100000000]), ('exh3', ['bfs', 3, 1500])]
+        return [('rand', ['rand', s, 25000, 20, 200]), ('life', ['life', s, 25000]), ('exh', ['bfs', 3, 100000000]), ('exh4', ['bfs', 4, 60000])]
 
     def prepare(self, ctx):
         bindir, log = ctx.build_harness(('seqrun',))
@@ -127,8 +127,8 @@ class VariantCheck(SeqCheck):
     """C13: the same history on {Concurrent, Local} x {Heap, Stack} (split and split_mut), each compared with the one
     Model after every step, hence with each other; the four implementation outputs are also compared directly."""
     def suites(self, ctx):
-        if ctx.tier == 'quick': return [('randv', ['randv', ctx.seed, 700, 20, 100])]
-        return [('randv', ['randv', ctx.seed, 12000, 20, 200])]
+        if ctx.tier == 'quick': return [('randv', ['randv', ctx.seed, 700, 20, 100]), ('life', ['life', ctx.seed, 2500])]
+        return [('randv', ['randv', ctx.seed, 12000, 20, 200]), ('life', ['life', ctx.seed, 40000])]
 
     def run(self, ctx):
         seqrun = self.prepare(ctx)
